@@ -14,8 +14,7 @@ THEOREMS = [NS + t for t in (
     'C11_cells_count', 'C11_cells_mem', 'C11_cells_nodup', 'C11_cols_same_cells',
     'C11_inter_spec', 'C11_inter_null_iff', 'C11_inter_cells', 'C11_union_bounding', 'C11_union_least',
     'C11_inter_comm', 'C11_union_comm', 'C11_inter_idem', 'C11_union_idem', 'C11_inter_assoc', 'C11_union_assoc',
-    'C11_covers_bounded', 'C11_inter_spec_unbounded', 'C11_inter_cells_unbounded', 'C11_union_bounding_unbounded',
-    'C11_inter_comm_unbounded', 'C11_inter_idem_unbounded', 'C11_inter_assoc_unbounded', 'C11_bounded_not_unbounded', 'C11_unbounded_side',
+    'C11_covers_bounded', 'C11_inter_spec_unbounded', 'C11_inter_cells_unbounded', 'C11_bounded_not_unbounded', 'C11_unbounded_side',
     'C11_operand_assoc', 'C11_offset_range', 'C11_offset_period', 'C11_offset_add', 'C11_offset_zero',
     'C11_offset_wrap_boundary')]
 DESIGN_REF = 'DESIGN.md §7 C11'
